@@ -27,6 +27,7 @@ class ContractAst:
     ensures: List[Clause] = field(default_factory=list)
     raises: List[Clause] = field(default_factory=list)         # name = exception class; expr = condition under which allowed
     snapshot: List[Clause] = field(default_factory=list)
+    ensures_exc: List[Clause] = field(default_factory=list)
     assumed: bool = False
     file: str = ""
     lineno: int = 0
@@ -152,6 +153,8 @@ class Sidecars:
                     c.raises = _clauses(sub)
                 elif sub.name == "snapshot":
                     c.snapshot = _clauses(sub)
+                elif sub.name == "ensures_exc":
+                    c.ensures_exc = _clauses(sub)
         if c.assumed:
             self.assumed[key] = c
         else:
